@@ -1,0 +1,31 @@
+//go:build verif
+
+package config
+
+// Contracts for the deductive verifier in /verif (govc). This file contains comments only; it is compiled
+// only with the build tag "verif" and adds no code. Syntax: /verif/DESIGN.md, Appendix A.
+
+//@ prelude merge.smt2
+
+//@ func Merge returns (res, err)
+//@   props C08 C03 C04
+//@   frame @C08,C03
+//@   ensures @C08 err == nil ==> res != nil
+//@   ensures @C08 err == nil ==> seq(res.Extensions) == tail(old(seq(content.Extensions)), sO(run(old(seq(profile.Extensions)), old(seq(content.Extensions)), 0, entry(1, mkst(seq(certExtsHandled), seq(certExtsOverridden), seq(newExt))))), 0, sOut(run(old(seq(profile.Extensions)), old(seq(content.Extensions)), 0, entry(1, mkst(seq(certExtsHandled), seq(certExtsOverridden), seq(newExt))))))
+//@   ensures @C08 err != nil ==> res == nil
+//@   loop 1
+//@     invariant 0 <= idx && idx <= len(profile.Extensions)
+//@     invariant @C08 run(old(seq(profile.Extensions)), old(seq(content.Extensions)), idx, mkst(seq(certExtsHandled), seq(certExtsOverridden), seq(newExt))) == run(old(seq(profile.Extensions)), old(seq(content.Extensions)), 0, entry(mkst(seq(certExtsHandled), seq(certExtsOverridden), seq(newExt))))
+//@   loop 2
+//@     invariant 0 <= idx && idx <= len(content.Extensions)
+//@     invariant @C08 fm(old(seq(content.Extensions)), seq(certExtsHandled), extOid(profExt), 0) == fm(old(seq(content.Extensions)), seq(certExtsHandled), extOid(profExt), idx)
+//@   loop 3
+//@     invariant 0 <= idx && idx <= len(certExtsHandled)
+//@     invariant @C08 memf(seq(certExtsHandled), 0, i) == memf(seq(certExtsHandled), idx, i)
+//@   loop 4
+//@     invariant 0 <= idx && idx <= len(content.Extensions)
+//@     invariant @C08 mkst(seq(certExtsHandled), seq(certExtsOverridden), entry(seq(newExt))) == run(old(seq(profile.Extensions)), old(seq(content.Extensions)), 0, entry(1, mkst(seq(certExtsHandled), seq(certExtsOverridden), seq(newExt))))
+//@     invariant @C08 tail(old(seq(content.Extensions)), seq(certExtsOverridden), idx, seq(newExt)) == tail(old(seq(content.Extensions)), seq(certExtsOverridden), 0, entry(seq(newExt)))
+//@   loop 5
+//@     invariant 0 <= idx && idx <= len(certExtsOverridden)
+//@     invariant @C08 memf(seq(certExtsOverridden), 0, i) == memf(seq(certExtsOverridden), idx, i)
